@@ -250,7 +250,7 @@ def random_cases(draw):
 def plan(tier, seed):
     nshards = 16
     max_nodes = 5 if tier == "quick" else 6
-    examples = 80 if tier == "quick" else 1200
+    examples = 150 if tier == "quick" else 1200
     tasks = [{"engine": "enum", "max_nodes": max_nodes, "index": i, "count": nshards} for i in range(nshards)]
     tasks += [{"engine": "hyp", "examples": examples, "seed": seed * 1000 + i} for i in range(nshards)]
     return tasks
